@@ -16,3 +16,132 @@ Theorem C07_passthrough :
     for_path_with_params s path params = Some (Ok (TPath (print_spath (su_path sub)) params)).
 Proof. exact for_path_passthrough. Qed.
 Print Assumptions C07_passthrough.
+
+(** ** completeness: a substituted path is never referenced (Proofs/SubstSpec.v, corollaries of
+    [C02_resolved_nodes]).  [root_fresh s] (Proofs/ClosedProofs.v, DESIGN 3.2): the root ident
+    is not [":"], neither the alloc path nor a substitute target starts with it. *)
+From V Require Import Model.WellFormed Model.SubstSpec Proofs.ClosedProofs Proofs.SubstSpec.
+
+(** in every resolved type path (field or not, any parent parameters, any depth), a [Path] node
+    whose first token is the root ident spells [root :: p] for a path [p], and no [p] it spells
+    has a substitution rule *)
+Theorem C07_never_referenced :
+  forall r s, root_fresh s ->
+  forall fuel id is_field parents orig t,
+  resolve_rec r s fuel id is_field parents orig = Ok t ->
+  forall ptoks params, In (TPath ptoks params) (subpaths t) ->
+  hd_error ptoks = Some (s_root s) ->
+  (exists p, ptoks = rel_path (s_root s :: p)) /\
+  (forall p, ptoks = rel_path (s_root s :: p) -> subs_get (s_subs s) p = None).
+Proof. exact never_referenced_resolved. Qed.
+Print Assumptions C07_never_referenced.
+
+(** the same for every field type path of every generated item *)
+Theorem C07_never_referenced_items :
+  forall r s teq m,
+  root_fresh s -> generate r s teq = Ok m ->
+  forall p0 id ir, items_get m p0 = Some (id, ir) ->
+  forall f, In f (kind_fields (ti_kind ir)) ->
+  forall ptoks params, In (TPath ptoks params) (subpaths (fi_path f)) ->
+  hd_error ptoks = Some (s_root s) ->
+  (exists p, ptoks = rel_path (s_root s :: p)) /\
+  (forall p, ptoks = rel_path (s_root s :: p) -> subs_get (s_subs s) p = None).
+Proof. exact never_referenced_items. Qed.
+Print Assumptions C07_never_referenced_items.
+
+(** ** parameter correctness: the structural replacement [replace_spath] (the model of
+    [replace_path_params_recursively]) equals the token-level specification [subst_spec]
+    (Model/SubstSpec.v: a token equal to a source parameter name, not preceded by [::] and not
+    followed by [<] or [::], is replaced by the resolved argument; every other token is
+    unchanged), for every replacement list and every target, under four decidable side
+    conditions on the target ([spath_gtype p] = the target as a type path):
+    (i)   no name inside a non-path generic argument (tuple, array, reference ...: finding F5,
+          [C07_nonpath_args_refuted]),
+    (ii)  no name is one of the tokens [: < > ,] the printer emits itself,
+    (iii) no name inside parenthesised arguments ([Fn(A) -> B]),
+    (iv)  a name used as the first segment of a path without leading [::] is followed by [<]
+          or [::], unless the path is a generic argument that is exactly the bare ident.
+    Each of (i)-(iv) is necessary ([C07_nonpath_args_refuted], [C07_side_conditions_needed]). *)
+Theorem C07_specified :
+  forall (repl : list (string * tokens)) (p : spath),
+  nonpath_mentions (map fst repl) (spath_gtype p) = false ->
+  names_not_punct (map fst repl) = true ->
+  paren_mentions (map fst repl) (spath_gtype p) = false ->
+  heads_ok (map fst repl) false (spath_gtype p) = true ->
+  print_spath (replace_spath repl p) = subst_spec repl "" (print_spath p).
+Proof. exact replace_is_spec. Qed.
+Print Assumptions C07_specified.
+
+(** what a rule with declared generics returns: the target with the specification applied,
+    where [names] pairs each source parameter name whose index is below the number of resolved
+    arguments ([applicable m params], in the order of the rule; [subst_spec] takes the first
+    match) with the tokens of the corresponding resolved argument; no own arguments *)
+Theorem C07_specified_resolved :
+  forall s path params sub m names,
+  subs_get (s_subs s) path = Some sub -> su_map sub = Specified m ->
+  Forall2 (fun (ni : string * nat) (nt : string * tokens) =>
+             fst nt = fst ni /\
+             exists p, nth_error params (snd ni) = Some p /\
+                       tp_tokens (alloc_tokens (s_alloc s)) p = Ok (snd nt))
+          (applicable m params) names ->
+  spec_applicable (map fst names) (su_path sub) = true ->
+  for_path_with_params s path params =
+  Some (Ok (TPath (subst_spec names "" (print_spath (su_path sub))) [])).
+Proof. exact specified_resolved. Qed.
+Print Assumptions C07_specified_resolved.
+
+(** with no applicable name (fewer resolved arguments than every index) the target is unchanged *)
+Theorem C07_specified_no_names :
+  forall s path params sub m,
+  subs_get (s_subs s) path = Some sub -> su_map sub = Specified m ->
+  applicable m params = [] ->
+  for_path_with_params s path params = Some (Ok (TPath (print_spath (su_path sub)) [])).
+Proof. exact specified_no_names. Qed.
+Print Assumptions C07_specified_no_names.
+
+(** [R] "at any depth" is false for names nested in non-path arguments (finding F5): with
+    [o::Bar<A,B> => ::x::Baz<::y::Q<(A, B)>>] all other side conditions hold, the structural
+    replacement leaves the target unchanged and differs from the specification *)
+Theorem C07_nonpath_args_refuted :
+  exists repl p,
+    names_not_punct (map fst repl) = true /\
+    paren_mentions (map fst repl) (spath_gtype p) = false /\
+    heads_ok (map fst repl) false (spath_gtype p) = true /\
+    nonpath_mentions (map fst repl) (spath_gtype p) = true /\
+    print_spath (replace_spath repl p) = print_spath p /\
+    print_spath (replace_spath repl p) <> subst_spec repl "" (print_spath p).
+Proof. exact nonpath_args_refuted. Qed.
+Print Assumptions C07_nonpath_args_refuted.
+
+(** the hypotheses of [C07_specified] hold on a target with nested, repeated, guarded
+    ([A<B>], [B::A]) and unknown ([C]) names, on which the replacement is not the identity *)
+Theorem C07_specified_nonvacuous :
+  spec_applicable (map fst f5_repl) ex_target = true /\
+  print_spath (replace_spath f5_repl ex_target) <> print_spath ex_target.
+Proof. exact ex_spec_applicable. Qed.
+Print Assumptions C07_specified_nonvacuous.
+
+(** each remaining side condition is necessary: counterexamples to the equation when exactly
+    that condition fails *)
+Theorem C07_side_conditions_needed :
+  (* (iii) a name inside parenthesised arguments *)
+  (let p := mk_spath false [("x", AParen ["("; "A"; ")"])] in
+   print_spath (replace_spath f5_repl p) <> subst_spec f5_repl "" (print_spath p)) /\
+  (* (iv) the whole target is a name; [A<>], a [<A>]-qualified ident, [A(..)] as arguments *)
+  (let p := mk_spath false [("A", ANone)] in
+   print_spath (replace_spath f5_repl p) <> subst_spec f5_repl "" (print_spath p)) /\
+  (let p := mk_spath false [("x", AAngle [GType (GTPath false false [("A", AAngle [])])])] in
+   print_spath (replace_spath f5_repl p) <> subst_spec f5_repl "" (print_spath p)) /\
+  (let p := mk_spath false [("x", AAngle [GType (GTPath true false [("A", ANone)])])] in
+   print_spath (replace_spath f5_repl p) <> subst_spec f5_repl "" (print_spath p)) /\
+  (let p := mk_spath false [("x", AAngle [GType (GTPath false false [("A", AParen ["("; ")"])])])] in
+   print_spath (replace_spath f5_repl p) <> subst_spec f5_repl "" (print_spath p)) /\
+  (* (ii) a punctuation token as a name *)
+  (let p := mk_spath false [("x", AAngle [GType (GTPath false false [("y", ANone)]);
+                                           GType (GTPath false false [("z", ANone)])])] in
+   print_spath (replace_spath [(",", ["u8"])] p) <> subst_spec [(",", ["u8"])] "" (print_spath p)).
+Proof. exact side_conditions_needed. Qed.
+Print Assumptions C07_side_conditions_needed.
+
+(** the parser outcomes of the rule (PassThrough iff both argument lists are empty, the
+    documented rejections) are pinned as [C16_rejections_parse] / [C16_rejections_kinds]. *)
